@@ -18,9 +18,9 @@ CLAIMED = {
  "C08": C("config.Merge is proved equal to the statement's recursion (specs/merge.smt2) for all profile and certificate extension lists of any length, with loop invariants and a frame obligation (no effect on its inputs); validateAndMerge is proved to return that merge for the named profile.",
            "Assumed: encoding/json.Marshal deterministic in the deep value, ExtensionConfig.Oid interface contract, ObjectIdentifier.Equal/bytes.Equal are content equality." + COMMON, "6 (C08)"),
  "C09": C("config.Validate is proved equal to the statement (in-order selection unless allowOther, every non-optional attribute present, no list accepts all) for all profiles and subjects of any length, and to leave the subject untouched; validateAndMerge/PlanBulkUpdate are proved to turn a rejection into an error before anything is planned.",
-           "Assumed: OidFromString as a function of its text (body not yet verified); greedy selection = existence of an embedding is the textbook lemma." + COMMON, "6 (C09)"),
+           "FsDb stores and finds a profile under exactly its own name (walk callback, AddProfile, GetProfile proved), so the profile a certificate names is the one it is validated against; greedy selection = existence of an embedding is the textbook lemma." + COMMON, "6 (C09)"),
  "C11": C("needsUpdate is proved equal to the decision formula of the statement for every strategy byte and every combination of backend facts at once (symbolic), PlanBulkUpdate equal to the planning recursion (issuer planned or needsUpdate; Replace iff a certificate exists; breadth-first order).",
-           "Assumed: db.Database interface contract over an abstract backend state, clock readings, needsUpdate named as a function of its arguments at the planning level (abstraction clause)." + COMMON, "6 (C11)"),
+           "The facts needsUpdate consults come from importPem/ReadPem, proved to keep what the blocks of an artifact file held also when text follows the last block. Assumed: db.Database interface contract over an abstract backend state, clock readings, needsUpdate named as a function of its arguments at the planning level (abstraction clause)." + COMMON, "6 (C11)"),
  "C13": C("HashSum is proved to be SHA-1 over the JSON of the configuration with alias, profile name and run-relative times blanked (spec blankV); lemmas over blankV prove insensitivity to exactly those and sensitivity to every other field and to static validity.",
            "Assumed: json.Marshal deterministic/injective per shape, SHA-1 collision-free." + COMMON, "6 (C13)"),
  "C14": C("BuildCertBody is proved to reuse a stored key (regardless of the configured algorithm), else use the request's public key without inventing a private key, else generate; GenerateArtifacts is proved to pass the stored key/request in and to return them in the new artifact; the PEM writers are proved to emit exactly one block of the right type with the PKCS#8 of that key (MarshalPKCS8PrivateKey/parseECPrivateKey/ParsePKCS8PrivateKey proved field by field, see C17).",
